@@ -58,3 +58,28 @@ Proof. vm_compute. reflexivity. Qed.
 (* variants: every level is paid for by its signature bytes - v holding v holding a byte: 3 calls, 7 bytes *)
 Example sx_variants : validate_marshalled_s false 0 [1; 118; 0; 1; 121; 0; 7] TVariant = (Ok 7, 3).
 Proof. vm_compute. reflexivity. Qed.
+
+(** ** the Param decoder (Wire/StepsParam.v) on the same inputs *)
+From RB Require Import Wire.Marshal Wire.Unmarshal Wire.StepsParam Wire.StepsParamProofs.
+Definition sx_ctx (buf : list N) (off nf : N) : uctx := {| ubuf := buf; uoff := off; unfds := nf; udepth := 0 |}.
+Definition sx_res (x : counted (val * uctx)) : outcome (val * N) * N := (do r <- fst x; Ok (fst r, uoff (snd r)), snd x).
+(* the accepted body fragment: 41 bytes (offset 3 to 44) in 15 steps - 4 more than the validator, two for each u16 element *)
+Example sx_p_ok : sx_res (unmarshal_ps 66 false sx_ty (sx_ctx sx_buf 3 2)) = (Ok (sx_val, 44), 15).
+Proof. vm_compute. reflexivity. Qed.
+Example sx_p_cut : sx_res (unmarshal_ps 66 false sx_ty (sx_ctx (firstnN 36 sx_buf) 3 2)) = (Err, 9).
+Proof. vm_compute. reflexivity. Qed.
+(* the bad boolean in the third struct: a failing run after two decoded elements *)
+Example sx_p_arr_bad : sx_res (unmarshal_ps 66 false sx_arr_ty (sx_ctx (sx_arr_buf 2) 0 0)) = (Err, 19).
+Proof. vm_compute. reflexivity. Qed.
+(* no fast path in this decoder: a byte array costs two steps per byte *)
+Example sx_p_bytes : sx_res (unmarshal_ps 66 false (TArray (TBase BByte)) (sx_ctx [3; 0; 0; 0; 1; 2; 3] 0 0))
+  = (Ok (VArray (TBase BByte) [VBase BByte 1; VBase BByte 2; VBase BByte 3], 7), 7).
+Proof. vm_compute. reflexivity. Qed.
+(* the constants are reached here too *)
+Example sx_p_tight_ok : snd (unmarshal_ps 66 false (nest 64 (TBase BByte)) (sx_ctx [7] 0 0)) = 129
+  /\ is_ok (fst (unmarshal_ps 66 false (nest 64 (TBase BByte)) (sx_ctx [7] 0 0))) = true.
+Proof. vm_compute. auto. Qed.
+Example sx_p_tight_err : sx_res (unmarshal_ps 66 false (nest 64 (TBase BByte)) (sx_ctx [] 0 0)) = (Err, 129).
+Proof. vm_compute. reflexivity. Qed.
+Example sx_p_proj : fst (unmarshal_ps 66 false sx_ty (sx_ctx sx_buf 3 2)) = unmarshal_p 66 false sx_ty (sx_ctx sx_buf 3 2).
+Proof. vm_compute. reflexivity. Qed.
